@@ -110,6 +110,10 @@ func nillable(t types.Type) bool {
 	return false
 }
 
+// sccpRetFilter: while set, the value of a call to a spliced helper is the join over the listed
+// returns only (used by guardedAfter to follow the activation in which the guard failed).
+var sccpRetFilter = map[*ssa.Function]map[*ssa.Return]bool{}
+
 func RunSCCP(fn *ssa.Function, inject map[ssa.Value]AV) *SCCP {
 	vf := vfuncOf(fn)
 	s := &SCCP{fn: fn, vf: vf, inject: inject, val: map[ssa.Value]AV{}, tuple: map[*ssa.Call][]AV{}, edge: map[[2]int]bool{}, reach: make([]bool, len(vf.Nodes))}
@@ -251,6 +255,9 @@ func (s *SCCP) evalInstr(v ssa.Value, n *VNode) AV {
 				rn := s.vf.nodeOf[r]
 				if rn == nil || !s.reach[rn.Idx] {
 					continue
+				}
+				if f := sccpRetFilter[h]; f != nil && !f[r] {
+					continue // path-sensitive query: only the returns on the path through the failed guard
 				}
 				for i := 0; i < nres && i < len(r.Results); i++ {
 					vals[i] = join(vals[i], s.get(r.Results[i]))
